@@ -63,7 +63,7 @@ fn keyset(t: &Tree, rng: &mut Rng) -> Vec<String> {
 pub fn positions(len: usize, rng: &mut Rng, all: bool) -> Vec<i32> {
     let n = len as i32;
     let mut v: Vec<i32> = Vec::new();
-    if all {
+    if all && n <= 600 {
         v.extend((-n - 2)..=(n + 2));
     } else {
         for _ in 0..4 {
@@ -216,6 +216,7 @@ pub fn run(ctx: &mut Ctx) {
         }
         let mut rng = ctx.rng.fork();
         let t = match i % 5 {
+            _ if i % 1501 == 7 && !ctx.miri => gen::big_doc(&mut rng),
             0 => gen::doc(&mut rng, &gen::DocCfg { max_depth: 6, max_fan: 4, nonfinite: true, container_p: 6 }),
             1 => gen::scalar(&mut rng, true),
             _ => gen::doc(&mut rng, &gen::DOC_DEFAULT),
